@@ -40,6 +40,19 @@ def effect_requires(ctx, rule, fn, effect_name, is_effect, guards_any, detail_ok
         ctx.ob(rule, fn.name, effect_name, 'effect site exists', False, detail='no effect site "%s" found in %s (anchor moved?)' % (effect_name, fn.name), nontrivial=False)
         return 0
     effset = set(eff_blocks)
+    # cheap sound pre-check (graph reachability): if, after deleting every CFG edge on which one of the guards is
+    # established, no effect block is reachable from entry, and no guard call site can be re-executed on the way from
+    # its establishing edge to the effect (no loop through it), the obligation holds without path enumeration.
+    try:
+        pre = _cheap_precheck(fn, effset, guards_any)
+    except Exception:
+        pre = False
+    if pre:
+        for ebi in eff_blocks:
+            t = fn.B[ebi]['t']
+            sp = site_of(ebi) if site_of else loc(t.get('span'))
+            ctx.ob(rule, fn.name, effect_name, ' | '.join(g.name for g in guards_any), True, detail=detail_ok or 'dominated by guard edges (graph cut)', site=sp, info=info)
+        return len(eff_blocks)
     extra_calls = set()
     extra_atoms = set()
     for _round in range(10):
@@ -96,6 +109,76 @@ def effect_requires(ctx, rule, fn, effect_name, is_effect, guards_any, detail_ok
                    effect_name, sp, ' | '.join(g.name for g in guards_any), describe_path(fn, path)),
                site=sp, witness=None if path is None else {'blocks': path[:80]}, info=info)
     return len(eff_blocks)
+
+
+def _guard_edges(fn, g):
+    """CFG edges (switch block, target) on which guard g is established, for the simple shapes
+    `switchInt(call_result)` / `switchInt(discriminant(call_result))` / `switchInt(field)`; None if g has a site we cannot map"""
+    from lib import is_result_ty, is_option_ty
+    edges = set()
+    sites = set()
+    for bi, b in enumerate(fn.B):
+        t = b['t']
+        if t['k'] != 'switch' or 'l' not in t['d']:
+            continue
+        origins = fn.origins(t['d'])
+        if len(origins) != 1:
+            continue
+        o = next(iter(origins))
+        neg = False
+        while o[0] == 'not':
+            o = o[1]; neg = not neg
+        want = g.want
+        vals = None          # set of switch values establishing the guard; 'else' handled via otherwise
+        if o[0] == 'call' and hasattr(g, 're') and g.matches_call(fn, o[1], fn.B[o[1]]['t']) and want in ('true', 'false'):
+            w = (want == 'true') != neg
+            vals = 'nonzero' if w else 'zero'
+            sites.add(o[1])
+        elif o[0] == 'discr' and o[1][0] == 'call' and hasattr(g, 're') and g.matches_call(fn, o[1][1], fn.B[o[1][1]]['t']) and want in ('ok', 'err', 'some', 'none'):
+            d = fn.B[o[1][1]]['t']['dest']
+            ty = fn.local_ty(d['l']) if not d['p'] else ''
+            if is_result_ty(ty):
+                vals = 'zero' if want == 'ok' else 'nonzero'
+            elif is_option_ty(ty):
+                vals = 'nonzero' if want == 'some' else 'zero'
+            sites.add(o[1][1])
+        elif o[0] == 'field' and hasattr(g, 'T') and want in ('true', 'false'):
+            try:
+                term = g.T.origin_term(fn, o)[0]
+            except Exception:
+                term = ''
+            if g.re.search(term):
+                w = (want == 'true') != neg
+                vals = 'nonzero' if w else 'zero'
+        if vals is None:
+            continue
+        for v, tb in t['ts']:
+            if (vals == 'zero' and v == 0) or (vals == 'nonzero' and v != 0):
+                edges.add((bi, tb))
+        listed = [v for v, _ in t['ts']]
+        if (vals == 'nonzero' and 0 in listed) or (vals == 'zero' and 0 not in listed):
+            edges.add((bi, t['o']))
+    return edges, sites
+
+
+def _cheap_precheck(fn, effset, guards):
+    edges = set()
+    sites = set()
+    for g in guards:
+        e, s_ = _guard_edges(fn, g)
+        edges |= e
+        sites |= s_
+    if not edges:
+        return False
+    reach = fn.reachable(0, avoid_edges=edges)
+    if reach & effset:
+        return False
+    # re-execution of a guard call between its edge and the effect would invalidate it: require that no guard site lies on a cycle
+    for s_ in sites:
+        nxt = fn.B[s_]['t']['t']
+        if nxt is not None and s_ in fn.reachable(nxt):
+            return False
+    return True
 
 
 def failing_edge_obligation(ctx, rule, fn, guard, discharge, effect_name, accept_ret=ERR_CLASSES, floor=1, info=False, accept_ret_pred=None):
